@@ -240,9 +240,20 @@ impl MemReader {
         // I don't think there would ever be a case where we would not read on word boundaries, but just in case...
         let last = chunks.into_remainder();
         if !last.is_empty() {
-            let word = nix::sys::ptrace::read(pid, (src + offset) as *mut std::ffi::c_void)
-                .map_err(|err| (err, offset))?;
-            last.copy_from_slice(&word.to_ne_bytes()[..last.len()]);
+            let word_size = std::mem::size_of::<usize>();
+            match nix::sys::ptrace::read(pid, (src + offset) as *mut std::ffi::c_void) {
+                Ok(word) => last.copy_from_slice(&word.to_ne_bytes()[..last.len()]),
+                Err(err) => {
+                    // The word starting at the tail may extend past the end of readable
+                    // memory even though the requested bytes are all readable. Read the
+                    // word that ends where the requested range ends instead.
+                    let end = src + offset + last.len();
+                    let start = end.checked_sub(word_size).ok_or((err, offset))?;
+                    let word = nix::sys::ptrace::read(pid, start as *mut std::ffi::c_void)
+                        .map_err(|_| (err, offset))?;
+                    last.copy_from_slice(&word.to_ne_bytes()[word_size - last.len()..]);
+                }
+            }
         }
 
         Ok(dst.len())
